@@ -461,6 +461,11 @@ class Gen:
         self.items_sha[key] = hashlib.sha256(orig.encode()).hexdigest()
         sp = Splicer(src, it.start, it.end)
         strip_attrs(st, src, it.st_lo, it.kw - 1, sp)
+        if imp is None and not d.opts.get("nested_in") and not any(st[k].text == "pub" for k in range(it.st_lo, it.kw)):
+            # E13: private fn made crate-visible (each function is emitted in its own module)
+            k0 = it.st_lo
+            while st[k0].text == "#": k0 = rs.match_close(st, k0 + 1) + 1
+            sp.insert(st[k0].start, ADD("E13", "pub(crate) "))
         cls = d.clauses
         ret_name = next((c.args[0] for c in cls if c.kind == "ret"), "r")
         labels: List[str] = []
@@ -658,6 +663,9 @@ class Gen:
             text = f"{hdr}\n{pre}{text}\n}}"
         else:
             text = pre + text
+            # one module per function: Verus verifies modules in parallel threads
+            mod = "m_" + re.sub(r"\W", "_", fid)
+            text = f"pub mod {mod} {{\nuse super::*;\n{text}\n}}\npub use {mod}::*;\n"
         self._emit_labelled(text, fid)
 
     def _emit_labelled(self, text: str, fid: str):
@@ -687,7 +695,12 @@ class Gen:
         self.out.add("verus! {\n")
         for d in self.dirs:
             if d.kind == "verbatim":
-                self.out.add(d.text)
+                t = d.text
+                if self.mode == "vacuity":
+                    # the probe build only checks that every function under contract is reachable:
+                    # lemmas are not re-verified there
+                    t = re.sub(r"(?m)^(\s*)((?:pub\s+)?(?:broadcast\s+)?proof\s+fn\s)", r"\1#[verifier::external_body] \2", t)
+                self.out.add(t)
             elif d.kind == "const":
                 self.emit_const(d)
             elif d.kind in ("struct", "enum"):
